@@ -246,6 +246,46 @@ def sm_stage1(ctx, bag, st):
             bag.add("smrw %s %s %d %d %s" % (key, ctr_hex(cv + 1), resp[0], resp[1], hx(resp[2])), str(BAD_LOGIC),
                     "sm:respwrap:parity", "btokSMRespWrap at an odd counter must return ERR_BAD_LOGIC")
     bag.add("smrw %s %s 144 0 %s" % (K0, ctr_hex(0), "5a" * 65537), str(BAD_APDU), "sm:respwrap:invalid", "invalid response accepted")
+    # crafted protected commands / responses: every combination of field forms (the MAC is random: never accepted);
+    # compares the FORMAT rules of Unwrap (Lc* / Le* forms, the three Le encodings and their consistency with the data
+    # length, first octet 02, tag length) between model and implementation
+    le_vals = [None, b"", b"\x00", b"\x01", b"\xff", b"\x00\x00", b"\x00\x01", b"\x01\x00", b"\x01\x01", b"\xff\xff",
+               b"\x00\x00\x00", b"\x00\x01\x00", b"\x00\x01\x01", b"\x01\x00\x00", b"\x00\xff\xff", b"\x00\x00\x00\x00"]
+    ncraft = 0
+    for n in (0, 1, 5, 225, 235, 239, 240, 254, 255, 256, 300):
+        f87s = [b""] if n == 0 else [tlv([0x87], b"\x02" + rng.randbytes(n))]
+        if n == 5:
+            f87s += [tlv([0x87], b"\x01" + rng.randbytes(n)), tlv([0x87], b"\x02"), tlv([0x87], b""), tlv([0x85], b"\x02" + rng.randbytes(n))]
+        for f87 in f87s:
+            for lv in le_vals:
+                f97 = b"" if lv is None else tlv([0x97], lv)
+                macs = [tlv([0x8E], rng.randbytes(8))]
+                if lv in (None, b"\x01") and n in (0, 5):
+                    macs += [tlv([0x8E], rng.randbytes(7)), tlv([0x8E], rng.randbytes(9)), tlv([0x8F], rng.randbytes(8)), b""]
+                for mac in macs:
+                    body = f87 + f97 + mac
+                    L = len(body)
+                    lcs = [bytes([0, L >> 8, L & 255])] + ([bytes([L])] if 0 < L < 256 else [])
+                    if n == 5 and lv in (None, b"\x01"):
+                        lcs += [bytes([L + 1]), bytes([L - 1]), bytes([0, 0, 0])]
+                    for lc in lcs:
+                        for lez in (b"", b"\x00", b"\x00\x00", b"\x00\x00\x00", b"\x01", b"\x00\x01"):
+                            if quick and len(lez) == 3 and n not in (0, 5):
+                                continue
+                            x = bytes([0x04 | (ncraft * 8 & 0xF8), 0xA4, 4, ncraft & 255]) + lc + body + lez
+                            ncraft += 1
+                            bag.add("smcu %s %s %s" % (K0, ctr_hex(1), hx(x)), r"(312|0 \d+ \| 511)", "sm:cmd:crafted",
+                                    "a crafted protected command with a random tag was accepted")
+    for n in (0, 1, 5, 126, 127, 128, 255, 256):
+        f87s = [b""] if n == 0 else [tlv([0x87], b"\x02" + rng.randbytes(n))]
+        if n == 5:
+            f87s += [tlv([0x87], b"\x01" + rng.randbytes(n)), tlv([0x87], b"\x02"), tlv([0x87], b""), tlv([0x97], b"\x01")]
+        for f87 in f87s:
+            for mac in (tlv([0x8E], rng.randbytes(8)), tlv([0x8E], rng.randbytes(7)), tlv([0x8E], rng.randbytes(9)), tlv([0x8F], rng.randbytes(8)), b""):
+                for tail in (b"\x90\x00", b"\x90", b"\x00\x90\x00", b""):
+                    bag.add("smru %s %s %s" % (K0, ctr_hex(2), hx(f87 + mac + tail)), r"(312|0 \d+ \| 511)", "sm:resp:crafted",
+                            "a crafted protected response with a random tag was accepted")
+    st["ncraft"] = ncraft
     # without a state: plain encoding
     for n, le in [(0, 0), (0, 1), (0, 256), (0, 257), (0, 65536), (1, 0), (255, 256), (255, 257), (256, 0), (256, 1), (300, 65536)]:
         cdf = rng.randbytes(n)
@@ -368,6 +408,17 @@ def cvc_expect_check2(c, ca):
     if not date_ok(ca["f"]) or not date_ok(ca["u"]) or ca["f"] > c["f"] or c["f"] > ca["u"]:
         return BAD_DATE
     return OK
+
+
+def content_valid(o):
+    """a nonzero code, or ERR_OK with names of 8..12 printable characters, valid dates, from <= until"""
+    f = o.split()
+    if f[0] != "0":
+        return f[0].isdigit()
+    if len(f) < 9:
+        return False
+    a, h, fr, un = unhx(f[1]), unhx(f[2]), unhx(f[3]), unhx(f[4])
+    return name_ok(a) and name_ok(h) and date_ok(fr) and date_ok(un) and fr <= un
 
 
 def cvc_stage(ctx, bag, run_c):
@@ -602,8 +653,9 @@ def cvc_stage(ctx, bag, run_c):
             nalt += 1
             if r["iss"] is not None and pos % 11 == 3:
                 bag.add("cvcval %s %s N" % (hx(x), hx(certs[r["iss"]]["cert"])), r"[1-9]\d*", "cvc:altered:val", "altered certificate validated (offset %d)" % pos, lean=lean)
-            if pos % 13 == 5:
-                bag.add("cvcunwrap %s 1 -" % hx(x), None, lean=lean)       # without verification: format / content rules only
+            if pos % 13 == 5 or pos % 7 == 2:
+                # without verification: format / content rules only -- whatever is accepted must be valid content
+                bag.add("cvcunwrap %s 1 -" % hx(x), content_valid, "cvc:unwrap:content", "btokCVCUnwrap returned ERR_OK with invalid content (offset %d)" % pos, lean=lean)
         for cut in (1, 2, 35, 49):
             bag.add("cvcunwrap %s 0 %s" % (hx(b[:-cut]), hx(ipk)), r"[1-9]\d*", "cvc:altered", "truncated certificate accepted")
         bag.add("cvcunwrap %s 0 %s" % (hx(b + b"\0"), hx(ipk)), r"[1-9]\d*", "cvc:altered", "extended certificate accepted")
@@ -733,7 +785,7 @@ def fmt_replay(key, op, got, want, what, model=None):
     L = ["# property C17 key=%s : %s" % (key, what), "# replay with ./check C17 --replay <this file> (implementation only)", "op %s" % op,
          "impl %s" % got]
     if want is not None:
-        L.append("expect %s" % want)
+        L.append("expect %s" % (want if isinstance(want, str) else "@" + want.__name__))
     if model is not None:
         L.append("model %s" % model)
     return "\n".join(L) + "\n"
@@ -745,7 +797,10 @@ def judge(bag, c_out, fails, limit_per_key=3):
         if i >= len(bag.ops):
             break
         w = bag.want[i]
-        bad = o.startswith("CRASH") or (w is not None and not re.fullmatch(w, o))
+        if callable(w):
+            bad = o.startswith("CRASH") or not w(o)
+        else:
+            bad = o.startswith("CRASH") or (w is not None and not re.fullmatch(w, o))
         if bad:
             k = bag.key[i] or ("crash:" + bag.ops[i].split()[0])
             seen[k] = seen.get(k, 0) + 1
@@ -840,7 +895,7 @@ def run(ctx):
         if key in seen:
             continue
         seen.add(key)
-        ctx.violation(key, fmt_replay(key, op, got, want, what), True, "%s\n  op: %s\n  impl: %s\n  required: %s" % (what, op[:400], got[:200], (want or "")[:200]))
+        ctx.violation(key, fmt_replay(key, op, got, want, what), True, "%s\n  op: %s\n  impl: %s\n  required: %s" % (what, op[:400], got[:200], (want if isinstance(want, str) else (want.__doc__ if want else "") or "")[:200]))
     if not fails:
         if not proof_ok:
             errs = "\n".join("# " + l for l in log.split("\n") if "error" in l)[:3000]
@@ -889,7 +944,10 @@ def replay(ctx, path):
     got = out[0] if out else "CRASH(rc=%d)" % rc
     print("op:   " + op[:300])
     print("impl: " + got[:300])
-    if want is not None:
+    if want is not None and want.startswith("@"):
+        print("required: " + (globals()[want[1:]].__doc__ or want))
+        still = rc != 0 or not globals()[want[1:]](got)
+    elif want is not None:
         print("required: " + want[:300])
         still = rc != 0 or not re.fullmatch(want, got)
     elif model is not None:
